@@ -10,7 +10,7 @@ import re
 
 import callees
 from cfg import Cfg
-from terms import (BOT, CMP, FALSE, TRUE, UNIT, C, cf, cu, eval_lit, is_const, lit, map_leaves, mk_gamma, mk_not, show,
+from terms import (BOT, CMP, FALSE, TRUE, UNIT, C, cf, cu, eval_lit, is_const, leaves, lit, map_leaves, mk_gamma, mk_not, show,
                    simp)
 
 
@@ -184,9 +184,119 @@ class Exec:
             return self.deref_val(st, inner) if inner is not None and inner[0] == "ref" else inner
         if isinstance(itv, tuple) and itv[0] == "enumerate":
             inner = self.iter_item(st, itv[1], loopid)
+            if inner is None:
+                return None
             iv = inner[2] if inner[0] == "ref" else inner
             return ("adt", "tuple", (0, ""), (("0", iv), ("1", inner)), False)
+        if isinstance(itv, tuple) and itv[0] == "mapiter":
+            inner = self.iter_item(st, itv[1], loopid)
+            if inner is None:
+                return None
+            return self.call_closure(st, itv[2], [inner])
         return None
+
+    # ---------- iterator adaptors consumed by fold / sum / for_each ----------
+    def classify_carried(self, v, lv, old, loopid, name):
+        """summary of one loop-carried value whose one-iteration update is v (lv = its symbol at the top of the iteration)"""
+        from terms import subterms
+        if isinstance(v, tuple) and v[0] == "+" and (v[1] == lv or v[2] == lv):
+            e = v[2] if v[1] == lv else v[1]
+            if not any(x == lv for x in subterms(e)):
+                return ("accum", old, e, loopid)
+        if isinstance(v, tuple):
+            ls = [l for _, l in leaves(v)]
+            others = [l for l in ls if l != lv]
+            if all(not any(x == lv for x in subterms(l)) for l in others):
+                return ("pick", old, tuple(dict.fromkeys(others)), loopid, v)
+        if v == lv:
+            return old
+        return ("havoc", loopid, name)
+
+    def const_items(self, st, itv):
+        """the items of an iterator over a local fixed-size array with constant bounds, else None"""
+        if isinstance(itv, tuple) and itv[0] == "copied":
+            inner = self.const_items(st, itv[1])
+            return None if inner is None else [self.deref_val(st, x) if isinstance(x, tuple) and x[0] == "ref" else x for x in inner]
+        if isinstance(itv, tuple) and itv[0] == "sliceiter" and not isinstance(itv[1][0], str):
+            arr = self._try_read(st, itv[1])
+            if isinstance(arr, tuple) and arr[0] == "array" and itv[2] == cu(0) and is_const(itv[3]) and itv[3][2] == len(arr) - 1:
+                return [("ref", itv[1], cu(i)) for i in range(len(arr) - 1)]
+        return None
+
+    def iter_fold(self, st, itv, init, clo, where):
+        """value of `iter.fold(init, clo)`; clo is a closure term or a python callable (state, acc, item) -> acc'"""
+        step = clo if callable(clo) else (lambda state, acc, item: self.call_closure(state, clo, [acc, item]))
+        if isinstance(itv, tuple) and itv[0] == "chain":
+            return self.iter_fold(st, itv[2], self.iter_fold(st, itv[1], init, clo, where), clo, where)
+        items = self.const_items(st, itv)
+        if items is not None:
+            acc = init
+            for it in items:
+                acc = step(st, acc, it)
+            return acc
+        self.nloop += 1
+        loopid = self.nloop
+        item = self.iter_item(st, itv, loopid)
+        if item is None:
+            raise Unsupported("fold over an unrecognised iterator: %s" % show(itv)[:80])
+        tuple_acc = isinstance(init, tuple) and init[0] == "adt" and init[1] == "tuple"
+        if tuple_acc:
+            names = [n for n, _ in init[3]]
+            acc_sym = ("adt", "tuple", (0, ""), tuple((n, ("lv", loopid, "acc." + n)) for n in names), False)
+        else:
+            acc_sym = ("lv", loopid, "acc")
+        s2 = st.fork()
+        before = dict(s2.store.m)
+        new = step(s2, acc_sym, item)
+        for k, v in s2.store.m.items():
+            if isinstance(k[0], str) and before.get(k) != v:
+                raise Unsupported("fold closure writes to state (%s)" % pstr(k))
+        st.asserts = s2.asserts
+        if tuple_acc:
+            comps = []
+            summaries = {}
+            for n, old in init[3]:
+                lv = ("lv", loopid, "acc." + n)
+                v = self.project(new, (n,), s2)
+                summ = self.classify_carried(v, lv, old, loopid, "acc." + n)
+                summaries["acc." + n] = summ
+                comps.append((n, summ))
+            out = ("adt", "tuple", (0, ""), tuple(comps), False)
+        else:
+            out = self.classify_carried(new, acc_sym, init, loopid, "acc")
+            summaries = {"acc": out}
+        self.loop_info[loopid] = {"fn": where, "header": None, "item": item, "changed": list(summaries), "summaries": summaries}
+        return out
+
+    def iter_for_each(self, st, itv, clo):
+        """`iter.for_each(clo)`: recognised when the closure only stores a loop-invariant value through a slice item (a fill)"""
+        if isinstance(itv, tuple) and itv[0] == "chain":
+            self.iter_for_each(st, itv[1], clo)
+            self.iter_for_each(st, itv[2], clo)
+            return UNIT
+        self.nloop += 1
+        loopid = self.nloop
+        item = self.iter_item(st, itv, loopid)
+        iv = ("ivar", loopid)
+        if item is None:
+            raise Unsupported("for_each over an unrecognised iterator: %s" % show(itv)[:80])
+        s2 = st.fork()
+        before = dict(s2.store.m)
+        self.call_closure(s2, clo, [item])
+        from terms import subterms
+        b = self.ivar_bounds[iv]
+        for k, v in s2.store.m.items():
+            if not isinstance(k[0], str) or before.get(k) == v:
+                continue
+            old = self._try_read(st, k)
+            if old is None:
+                old = ("pre", pstr(k))
+            if isinstance(v, tuple) and v[0] == "store" and v[1] == old and v[2] == iv and not any(x == iv or x == ("pre", pstr(k)) for x in subterms(v[3])):
+                st.store.write(k, ("fill", old, b["start"], b["end"], v[3]))
+            else:
+                raise Unsupported("for_each closure is not a fill of a slice (%s := %s)" % (pstr(k), show(v)[:60]))
+        st.asserts = s2.asserts
+        return UNIT
 
     def summarize_loop(self, fr, st, h):
         """Iterator-driven loops. Recognised summaries:
@@ -206,6 +316,18 @@ class Exec:
                 self.write_place(fr, st, s_["place"], self.rvalue(fr, st, s_["rv"]))
         it = self.operand(fr, st, t["args"][0])
         itv = self.deref_val(st, self.deref_val(st, it))
+
+        def parts(v):
+            if isinstance(v, tuple) and v[0] == "chain":
+                return parts(v[1]) + parts(v[2])
+            return [v]
+        for part in parts(itv):
+            self._summarize_one(fr, st, h, t, it, part)
+        self.write_place(fr, st, t["dest"], ("adt", "Option", (0, "None"), (), True))
+        return st, t["target"]
+
+    def _summarize_one(self, fr, st, h, t, it, itv):
+        fn = fr.fn
         self.nloop += 1
         loopid = self.nloop
         item = self.iter_item(st, itv, loopid)
@@ -269,8 +391,7 @@ class Exec:
             # keep the assert sites of the body (evaluated with the loop variable symbolic)
             self.sites = saved_sites
             out1b = body(st_fill_probe(self, st, changed))
-            self.write_place(fr, st, t["dest"], ("adt", "Option", (0, "None"), (), True))
-            return st, t["target"]
+            return
         # --- general case: loop-carried values become symbols, the body is evaluated once more
         def lvname(k):
             # frame-independent name of a loop-carried place
@@ -303,8 +424,6 @@ class Exec:
         st.asserts = out2.asserts
         self.loop_info[loopid] = {"fn": fn.label, "header": h, "item": item, "changed": [lvname(k) for k in changed],
                                   "summaries": {lvname(k): self._try_read(st, k) for k in changed}}
-        self.write_place(fr, st, t["dest"], ("adt", "Option", (0, "None"), (), True))
-        return st, t["target"]
 
     # ---------- values ----------
     def read_path(self, st, path, ty=None):
@@ -377,6 +496,8 @@ class Exec:
                         idx = v[2]
                 elif isinstance(v, tuple) and v[0] in ("constval", "ucall", "pre", "arg", "proj", "post", "ret"):
                     path = ("X:" + show(v),)  # opaque pointee: reads yield pre(X:..)
+                elif isinstance(v, tuple) and v[0] == "gamma" and all(isinstance(l, tuple) and l[0] in ("constval", "ucall", "pre", "arg", "proj", "post", "ret") for _, l in leaves(v)):
+                    path = ("X:" + show(v),)  # a choice between opaque pointees (e.g. one of several string literals)
                 else:
                     raise Unsupported("deref of %s" % show(v))
             elif k == "field":
@@ -411,6 +532,8 @@ class Exec:
             return a[3]
         if isinstance(a, tuple) and a[0] == "fromelem":
             return a[1]
+        if isinstance(a, tuple) and a[0] == "array" and is_const(idx) and 0 <= idx[2] < len(a) - 1:
+            return a[1 + idx[2]]
         return ("select", arr, idx)
 
     def write_place(self, fr, st, place, v):
@@ -536,6 +659,12 @@ class Exec:
             return ("ref", path, idx)
         if k == "discriminant":
             v = self.read_place(fr, st, rv["place"])
+            if re.match(r"(std|core)::(option::Option|result::Result)<", rv["place"].get("ty", "")):
+                from terms import subterms as _st
+                import terms as _terms
+                for x in _st(v):
+                    if isinstance(x, tuple) and x and x[0] in ("pre", "proj", "ucall", "ret", "post", "get", "arg", "select"):
+                        _terms.TWO_VARIANT.add(x)
             return self.discr(v)
         if k == "aggregate":
             ops = [self.operand(fr, st, o) for o in rv["ops"]]
@@ -569,6 +698,8 @@ class Exec:
             a = a[1]
         if isinstance(a, tuple) and a[0] == "fromelem":
             return a[2]
+        if isinstance(a, tuple) and a[0] == "array":
+            return cu(len(a) - 1)
         return ("len", a)
 
     def discr(self, v):
@@ -988,6 +1119,13 @@ class Exec:
             if is_const(dv[0]) and is_const(dv[1]):
                 return dv[0] if ((dv[0][2] <= dv[1][2]) == (which == "min")) else dv[1]
             return (which,) + tuple(sorted([dv[0], dv[1]], key=repr))
+        if re.search(r"cmp::PartialOrd(?:<.*>)?(?:>)?::partial_cmp$|cmp::impls::<impl (?:std|core)::cmp::PartialOrd for f64>::partial_cmp$", n) and len(dv) == 2:
+            # Option<Ordering>; Ordering's discriminants are -1 (255 as u8 in SwitchInt), 0, 1
+            ordv = lambda d, nm: ("adt", "std::cmp::Ordering", (d, nm), (), True)
+            some = lambda v: ("adt", "std::option::Option", (1, "Some"), (("0", v),), True)
+            none = ("adt", "std::option::Option", (0, "None"), (), True)
+            a, b = dv
+            return mk_gamma(fold("<", a, b), some(ordv(255, "Less")), mk_gamma(fold("==", a, b), some(ordv(0, "Equal")), mk_gamma(fold("<", b, a), some(ordv(1, "Greater")), none)))
         m = re.search(r"cmp::(?:PartialOrd|PartialEq)(?:<.*>)?(?:>)?::(lt|le|gt|ge|eq|ne)$", n)
         if m and len(dv) == 2:
             return fold({"lt": "<", "le": "<=", "gt": ">", "ge": ">=", "eq": "==", "ne": "!="}[m.group(1)], dv[0], dv[1])
@@ -1055,6 +1193,33 @@ class Exec:
             return ("sliceiter", args[0][1], cu(0), self.length(arr))
         if re.search(r"iter::Iterator>::enumerate$|iter::Iterator::enumerate$", callees.strip_turbofish(n)):
             return ("enumerate", args[0])
+        nn = callees.strip_turbofish(n)
+        if re.search(r"<impl \[[^\]]*\]>::iter_mut$", nn) and isinstance(args[0], tuple) and args[0][0] == "ref" and args[0][2] is None:
+            arr = self.read_path(st, args[0][1])
+            return ("sliceiter", args[0][1], cu(0), self.length(arr))
+        if re.search(r"<impl \[[^\]]*\]>::iter_mut$", nn) and isinstance(args[0], tuple) and args[0][0] == "sliceiter":
+            return args[0]
+        if re.search(r"iter::Iterator>::chain$|iter::Iterator::chain$", nn) and len(args) == 2:
+            second = args[1]
+            if isinstance(second, tuple) and second[0] == "ref" and second[2] is None:
+                inner = self.deref_val(st, second) if not isinstance(second[1][0], str) else None
+                if isinstance(inner, tuple) and inner[0] in ("sliceiter", "enumerate", "copied", "chain", "mapiter"):
+                    second = inner
+                else:
+                    second = ("sliceiter", second[1], cu(0), self.length(self.read_path(st, second[1])))
+            return ("chain", args[0], second)
+        if re.search(r"iter::Iterator>::map$|iter::Iterator::map$", nn) and len(args) == 2 and isinstance(args[1], tuple) and args[1][0] == "closure":
+            return ("mapiter", args[0], args[1])
+        if re.search(r"iter::Iterator>::fold$|iter::Iterator::fold$", nn) and len(args) == 3:
+            clo = args[2]
+            if isinstance(clo, tuple) and clo[0] == "fn":
+                fpath = clo[1]
+                clo = lambda state, acc, item: self.std_call(state, {"path": fpath, "path_args": fpath}, fpath, [acc, item], t)
+            return self.iter_fold(st, args[0], args[1], clo, self.cur_fn_label)
+        if re.search(r"iter::Iterator>::sum$|iter::Iterator::sum$|iter::traits::accum::Sum.*>::sum$", nn) and len(args) == 1:
+            return self.iter_fold(st, args[0], cf(0.0), lambda state, acc, item: fold("+", acc, self.deref_val(state, item)), self.cur_fn_label)
+        if re.search(r"iter::Iterator>::for_each$|iter::Iterator::for_each$", nn) and len(args) == 2 and isinstance(args[1], tuple) and args[1][0] == "closure":
+            return self.iter_for_each(st, args[0], args[1])
         if re.search(r"IntoIterator.*::into_iter$", callees.strip_turbofish(n)):
             a0 = args[0]
             if isinstance(a0, tuple) and a0[0] == "ref" and a0[2] is None and not isinstance(a0[1][0], str):
